@@ -81,7 +81,7 @@ class C14(Spec):
             ctor = rng.choice((0, 0, 1, 2, 3))
             doc = (asgen.post, asgen.actor, asgen.activity, asgen.collection)[ctor](rng, 2, 0.05)
             ws = [rng.choice((80, 30, 12, 5))]
-            items.append(c06.itemx_case(doc, ctor, ws, [1]) if ctor in (0, 1) else c06.item_case(doc, ctor, ws, [1]))
+            items.append(c06.itemx_case(doc, ctor, ws, [1]) if ctor in (0, 1, 2) else c06.item_case(doc, ctor, ws, [1]))
         return [Batch("c14", self.gen(rng, 1500 if tier == "quick" else 60000), correspondence="style.* / ansi layout == Style.v / Ansi.v"),
                 Batch("c14-items", items, env={"VERIF_CASE_TIMEOUT": "20"},
                       correspondence="Post/Actor String, Preview == Pub model; every Tangible's texts are neutral")]
